@@ -79,6 +79,7 @@ type Intent struct {
 	Repeat     int       `json:"rep,omitempty"`
 	Replay     int       `json:"replay,omitempty"` // kind "replay": index into the history of included txs
 	WrongChain bool      `json:"wrongChain,omitempty"`
+	IDHex      *string   `json:"idHex,omitempty"` // unstake/vote: explicit payload hash bytes (hostile lengths)
 }
 
 type EvSpec struct {
